@@ -58,7 +58,13 @@ Prefixes ==
       <<o("h1", "B", "mem"), o("h2", "B", "mem"), sf("h1", "c1", "f1", "ckpt"), w("h2", "c1"), cl("h1"), cl("h1"), cad("h1")>>,
       \* a collection is dropped through one handle, another one is created, the other handle still holds the old one
       <<o("h1", "A", "mem"), o("h2", "A", "mem"), w("h2", "c1"), drop("h1"), w("h1", "c2"), w("h2", "c1"), w("h1", "c2")>>,
-      <<o("h1", "A", "d1"), o("h2", "A", "d1"), w("h2", "c1"), w("h1", "c1"), drop("h2"), w("h2", "c2"), w("h1", "c1")>> }
+      <<o("h1", "A", "d1"), o("h2", "A", "d1"), w("h2", "c1"), w("h1", "c1"), drop("h2"), w("h2", "c2"), w("h1", "c1")>>,
+      \* an in-memory bucket whose URL names the directory of another bucket's on-disk data
+      <<o("h1", "B", "d1"), w("h1", "c0"), cl("h1"), o("h2", "A", "mp"), w("h2", "c0"), cad("h2"), om("h3", "B", "d1", "ReOpenExisting")>>,
+      <<o("h1", "A", "d1"), w("h1", "c1"), o("h2", "B", "mp"), cl("h1"), cl("h2"), cad("h2")>>,
+      \* calls through a handle whose bucket was deleted through another one, then calls through a third
+      <<o("h1", "A", "mem"), o("h2", "A", "mem"), o("h3", "A", "mem"), w("h1", "c0"), cad("h1"), sf("h2", "c0", "f1", "dump"), w("h3", "c0")>>,
+      <<o("h1", "B", "d1"), o("h2", "B", "d1"), o("h3", "B", "d1"), w("h1", "c1"), cad("h1"), sf("h2", "c1", "f1", "ckpt"), w("h3", "c1"), w("h2", "c0")>> }
 (* every prefix is an initial state: the simulator picks one of them for each behaviour *)
 GenInit == \E pre \in Prefixes :
               /\ S = ApplySeq(Init0, pre, 1) /\ steps = Len(pre)
@@ -91,7 +97,7 @@ GenSpec == GenInit /\ [][GenNext]_vars
 (* C13 *)
 CountEqualsOpenHandles == \A n \in Names : S.reg[n].cnt = Cardinality(OpenHandlesOf(S, n))
 DiskRegisteredIffOpen ==
-    \A n \in Names : (Registered(S, n) /\ S.reg[n].url # "mem") => S.reg[n].cnt > 0
+    \A n \in Names : (Registered(S, n) /\ S.reg[n].url \notin MemUrls) => S.reg[n].cnt > 0
 OpenHandleHasStore ==
     \A h \in Handles : S.hs[h].st = "open" => (S.store[S.hs[h].n][S.hs[h].u].exists /\ S.reg[S.hs[h].n].url = S.hs[h].u)
 DiskDataSurvivesClose ==   \* closing never removes data: only CloseAndDelete does
@@ -106,6 +112,6 @@ FeedsEndOnlyForAReason ==
     [][\A f \in FeedIds : (S.fd[f].st = "running" /\ S'.fd[f].st = "ended") =>
           \/ (pick'.kind = "StopFeed" /\ pick'.f = f)
           \/ (pick'.kind = "CloseAndDelete" /\ S.hs[pick'.h].n = S.fd[f].n)
-          \/ (pick'.kind = "Close" /\ S.hs[pick'.h].n = S.fd[f].n /\ S.fd[f].u # "mem" /\ S.reg[S.fd[f].n].cnt = 1)
+          \/ (pick'.kind = "Close" /\ S.hs[pick'.h].n = S.fd[f].n /\ S.fd[f].u \notin MemUrls /\ S.reg[S.fd[f].n].cnt = 1)
           \/ (pick'.kind = "Drop" /\ S.hs[pick'.h].n = S.fd[f].n /\ S.fd[f].colls = {"c1"})]_vars
 =============================================================================
